@@ -54,7 +54,22 @@ def corruptions():
         i = first(evs, lambda e: e["ev"] == "srv" and e["state"] == "WaitFontMap")
         if i is None: return None
         evs[i]["state"] = "Active"; return evs
-    return [("wrong_state", wrong_state), ("drop_write", drop_write), ("swap_writes", swap_writes),
+    def ultimatum_swallowed(evs):
+        i = first(evs, lambda e: e["ev"] == "srv" and e.get("ek") == "Disconnect")
+        if i is None: return None
+        evs[i]["res"] = "ok"; evs[i]["ek"] = ""; return evs
+    def offchannel_advances(evs):
+        i = first(evs, lambda e: e["ev"] == "srv" and e.get("ek") == "Disconnect")
+        j = None if i is None else max(k for k in range(i) if evs[k]["ev"] == "srv")
+        if j is None: return None
+        evs[j]["state"] = "WaitCoop"; return evs
+    def train_deactivate_missed(evs):
+        # the train [error info, deactivate-all, synchronize] received in the active state: the window must close
+        i = first(evs, lambda e: e["ev"] == "srv" and len(e["cb"]) >= 1)
+        j = None if i is None else next((k for k in range(i + 1, len(evs)) if evs[k]["ev"] == "srv"), None)
+        if j is None or evs[j]["state"] != "WaitDemandActive": return None
+        evs[j]["state"] = "Active"; return evs
+    return [("train_deactivate_missed", train_deactivate_missed), ("ultimatum_swallowed", ultimatum_swallowed), ("offchannel_advances", offchannel_advances), ("wrong_state", wrong_state), ("drop_write", drop_write), ("swap_writes", swap_writes),
             ("input_claims_ok", input_claims_ok), ("input_bytes_outside_window", input_bytes_outside_window),
             ("dup_callback", dup_callback), ("early_active", early_active)]
 
@@ -62,7 +77,8 @@ def corruptions():
 HAPPY = [{"kind": "DemandActive", "shareId": [1, 0, 0, 0]}, {"kind": "Sync"}, {"kind": "Control", "action": 4},
          {"kind": "Control", "action": 2}, {"kind": "FontMap"},
          {"kind": "FastPath", "updates": [{"t": "Bitmap"}], "rects": [{"l": 0, "t": 0, "r": 1, "b": 1, "w": 2, "h": 2, "bpp": 32, "comp": False, "data": [1, 2, 3, 4]}]},
-         {"kind": "DeactivateAll"}, {"kind": "DemandActive", "shareId": [255, 255, 255, 255]}]
+         {"train": [{"kind": "ErrInfo"}, {"kind": "DeactivateAll"}, {"kind": "Sync"}]}, {"kind": "DemandActive", "shareId": [255, 255, 255, 255]},
+         {"kind": "Sync", "channel": 1004}, {"kind": "SrvUltimatum"}]
 
 
 def run(tier, seed):
@@ -80,10 +96,27 @@ def run(tier, seed):
         plans = [{"id": "g%d" % k, "steps": with_inputs(h, k)} for k, h in enumerate(hists)]
         # the straight-line happy path with reactivation, and random long walks of the model
         plans.append({"id": "happy", "uid": 1004, "steps": with_inputs(HAPPY, 0)})
-        nsim = 40 if tier == "quick" else 400
+        nsim = 40 if tier == "quick" else 3000
         sim, walks = activation.generate(wd, 60, simulate="num=%d" % nsim, seed=seed)
         for k, h in enumerate(walks):
             plans.append({"id": "walk%d" % k, "steps": with_inputs(h, k)})
+        # trains: several slow-path PDUs in one MCS user data, received in the active state (SrvTrain); the window
+        # must close on a deactivate-all wherever it stands in the train
+        import random as _random
+        trng = _random.Random(seed)
+        tl = [{"kind": "Sync"}, {"kind": "Control", "action": 4}, {"kind": "Control", "action": 2}, {"kind": "Control", "action": 1}, {"kind": "FontMap"},
+              {"kind": "ErrInfo"}, {"kind": "UnknownData", "t2": 38}, {"kind": "DeactivateAll"}, {"kind": "DemandActive", "shareId": [7, 7, 7, 7]}]
+        for k in range(60 if tier == "quick" else 1500):
+            n = trng.choice([2, 2, 3, 4])
+            items = [dict(trng.choice(tl)) for _ in range(n)]
+            if trng.random() < 0.6:
+                items[trng.randrange(n)] = {"kind": "DeactivateAll"}
+            seen_deact = False
+            for i, it in enumerate(items):           # class: no demand-active after a deactivate-all of the same train
+                if it["kind"] == "DeactivateAll": seen_deact = True
+                elif it["kind"] == "DemandActive" and seen_deact: items[i] = {"kind": "Sync"}
+            after = [dict(trng.choice(tl[:8])) for _ in range(trng.randint(0, 2))]
+            plans.append({"id": "train%d" % k, "steps": with_inputs(HAPPY[:5] + [{"train": items}] + after + HAPPY[:5], k)})
         pp = os.path.join(wd, "plans.ndjson")
         activation.write_plans(pp, plans)
         trace, blobs, decoded, dec = activation.run_and_decode(wd, pp, seed)
